@@ -593,7 +593,9 @@ func (x *Exec) havocHeap(st *State, why string, ms *ModSet) {
 			// are lock-balanced (obligation lock.balanced), callees without one are assumed to be
 			continue
 		}
+		oldK := st.H[k]
 		st.H[k] = x.vc.fresh("H."+k+"@havoc", st.H[k].S)
+		x.keepMonotone(k, oldK, st.H[k])
 	}
 	a := x.alloc(st)
 	na := x.vc.fresh("alloc@havoc", SInt)
